@@ -165,6 +165,25 @@ class Rot(Mat):
         Mat.__init__(self, 3, 3, Real(-1, 1), random_rotation)
 
 
+class UnitVec3(Vec):
+    """a 3-vector sampled on the unit sphere (|v|^2 = 1 goes in `requires`)"""
+
+    def __init__(self):
+        Vec.__init__(self, 3, Real(-1, 1))
+
+    def sample(self, rng):
+        while True:
+            v = [rng.gauss(0, 1) for _ in range(3)]
+            n = math.sqrt(sum(x * x for x in v))
+            if n > 1e-3:
+                if rng.random() < 0.1:
+                    v[rng.randrange(3)] = 0.0
+                    n = math.sqrt(sum(x * x for x in v))
+                    if n < 1e-3:
+                        continue
+                return [x / n for x in v]
+
+
 class Cell(PType):
     """[a, b, c, alpha, beta, gamma], angles in degrees"""
 
@@ -243,6 +262,11 @@ class Contract:
         """actual arguments of the real function from the (possibly ghost) contract parameters"""
         return list(args)
 
+    def sign_hints(self, *args):
+        """closed forms q with an obvious sign: a sign obligation t >= 0 / t > 0 / t != 0 may be
+        discharged by certifying t == q (modulo the hypotheses) and then proving the sign of q"""
+        return ()
+
     def sqrt_hints(self, *args):
         """closed forms that square roots met during execution may resolve to (each use is certified)"""
         return ()
@@ -317,10 +341,13 @@ class CallStub:
             res = k.fresh_result(site, *args)
         else:
             raise OutsideSubset('contract of %s gives no result for call sites' % k.name)
+        explicit = k.result_spec is not None
         for nm, cond in k.ensures(*(list(args) + [res])):
             if nm.startswith('~'):
                 continue
-            c.assume(cond)
+            # for a functional contract the result IS the spec term: its ensures are consequences
+            # (kept as facts for the solvers, not as generators of the ideal)
+            c.assume(cond, hyp=not explicit)
         c.notes.append('callee contract used: %s' % k.qualname())
         return res
 
@@ -364,6 +391,7 @@ class Engine:
                 for nm, cond in k.requires(*args):
                     c.assume(cond)
                 c.sqrt_hints = list(k.sqrt_hints(*args))
+                c.sign_hints = list(k.sign_hints(*args))
                 c.probe_env = self.probe_env(k)
                 actual = k.actuals(*args)
                 c.n_pre_obl = len(c.obligations)
@@ -427,7 +455,7 @@ class Engine:
                             c.notes.append('clause checked at run time only (bounded): %s.%s' % (k.qualname(), nm[1:]))
                             continue
                         c.oblige('%s.ensures.%s[%s]' % (k.qualname(), nm, pid), cond)
-                        c.assume(cond)      # cut: later clauses may use earlier (proved) ones
+                        c.assume(cond, hyp=False)      # cut: later clauses may use earlier (proved) ones as facts
                 else:
                     e = p.outcome[1]
                     allowed = [(nm, cond) for nm, exc, cond in rs if isinstance(e, exc)]
